@@ -504,7 +504,7 @@ struct Resolved {
     spelling_label: &'static str,
 }
 
-fn resolve(ep: &Ep, case: &Case, s: &Server) -> Resolved {
+fn resolve(ep: &Ep, case: &Case, s: &Server, nonce: u32) -> Resolved {
     let idx = (case.target as usize).min(NS.len() - 1);
     let (ns, spelling_label) = if idx == 0 {
         match case.spelling {
@@ -530,7 +530,7 @@ fn resolve(ep: &Ep, case: &Case, s: &Server) -> Resolved {
         Some(canon_ns(ns.as_deref().unwrap_or("")))
     };
     let spelling_label = if ep.ns_in == NsIn::ById && ep.id != "v2.mcpserver.update" { "ns:by_id" } else { spelling_label };
-    Resolved { target: Target { ns, idx, variant: case.variant, mcp_id, mcp_hist }, named, spelling_label }
+    Resolved { target: Target { ns, idx, variant: case.variant, mcp_id, mcp_hist, nonce }, named, spelling_label }
 }
 
 fn run_case(case: &Case) -> CaseReport {
@@ -574,7 +574,9 @@ fn run_case_on(case: &Case, s: &mut Server) -> Result<CaseReport, String> {
     let user = format!("u{}r{}{}", case.group.code(), role, if case.via_update { "u" } else { "" });
     let via_update = case.via_update && case.group != GroupSpec::Unrestricted;
     let token = s.session(&user, role, case.group.param(), via_update)?;
-    let res = resolve(ep, case, s);
+    s.case_counter += 1;
+    let nonce = s.case_counter;
+    let res = resolve(ep, case, s, nonce);
     let named = res.named.clone();
     let group = &case.group;
     let mut labels = vec![
@@ -638,7 +640,7 @@ fn run_case_on(case: &Case, s: &mut Server) -> Result<CaseReport, String> {
             }
         }
         // ids of MCP entries may have changed by the restore: rebuild the administrator's request
-        let res2 = resolve(ep, case, s);
+        let res2 = resolve(ep, case, s, nonce);
         let areq = build(ep, &res2.target);
         let ar = s.admin_send(&areq)?;
         let s2 = s.snapshot(ep.kind)?;
@@ -696,14 +698,12 @@ fn sweep_cases() -> Vec<Case> {
     let g4 = GroupSpec::Lists { wl: ListSpec::All, bl: ListSpec::All };
     let mut out = vec![];
     for ep in CATALOGUE {
-        let mut variants: Vec<u8> = vec![0, 1];
-        let _ = &mut variants;
-        if ep.id == "v2.mcpserver_import.create" {
-            variants.extend([1u8 << 1, 2 << 1, 3 << 1, 4 << 1]);
-        }
         for (gi, g) in [&g1, &g2, &g3, &g4].into_iter().enumerate() {
-            if gi >= 2 && variants.len() > 2 {
-                variants.truncate(2);
+            // variant bit 0 = alternative parameter carrier; the MCP import additionally tries the unique keys of
+            // the four fixture servers ("steal", variant bits 1..3) with the two complementary groups
+            let mut variants: Vec<u8> = vec![0, 1];
+            if ep.id == "v2.mcpserver_import.create" && gi < 2 {
+                variants.extend([1u8 << 1, 2 << 1, 3 << 1, 4 << 1]);
             }
             for target in 0..NS.len() as u8 {
                 let spellings: &[Spelling] = if target == 0 { &[Spelling::Empty, Spelling::Omitted, Spelling::Public] } else { &[Spelling::Empty] };
